@@ -201,7 +201,7 @@ func c16Uci(args []string) int {
 		"setoption name Hash value 2", "setoption name Hash value -5", "setoption name Hash value abc", "setoption name Hash", "setoption name",
 		"setoption", "setoption value 3", "setoption name Use_Hash value false", "setoption name Use_Hash value maybe", "setoption name Nonexistent value 1",
 		"setoption name Clear Hash", "setoption name Print Config", "setoption name Ponder value true", "setoption name Use_Book value false",
-		"perft 1", "perft", "perft x", "perft 1 2",
+		"perft 1", "perft", "perft x", "perft 1 2", "perft 600", "perft 1322", "perft 3 2000", "perft 129", "perft 2 130", "perft -5",
 	}
 	var lines []string
 	for _, t := range templates {
